@@ -8,7 +8,7 @@ def optList (s : String) : List String := if s = "-" then [] else s.splitOn ","
 /-- options: `at:<hex of formatted time>`, `limit:N`, `closed:N` -/
 def featureParam (o : String) : Option String :=
   match o.splitOn ":" with
-  | ["at", h] => (unhex h).map (fun t => "at=" ++ t)
+  | ["at", h] => (unhex ((h.splitOn "@").headD "")).map (fun t => "at=" ++ t)
   | _ => none
 
 def notesOpt (o : String) : Option (Option String) :=
